@@ -206,7 +206,7 @@ def print_rhs(r, in_concat=False):
     if k == "star":
         return "{ " + print_rhs(r["op"]) + " }"        # "{{" is one token: a star directly inside a star needs the space
     if k == "plus":
-        return "{{" + print_rhs(r["op"]) + "}}"
+        return "{{ " + print_rhs(r["op"]) + " }}"      # "{{{" reads as "{{" "{" and "}}}" as "}}" "}": keep the brackets apart
     return ""
 
 
